@@ -4,7 +4,7 @@ use crate::builtins::core::zoneddatetime::interpret_isodatetime_offset;
 use crate::builtins::core::{calendar::Calendar, timezone::TimeZone, PlainDate, ZonedDateTime};
 use crate::iso::{IsoDate, IsoTime};
 use crate::options::{ArithmeticOverflow, Disambiguation, OffsetDisambiguation};
-use crate::parsers::parse_date_time;
+use crate::parsers::parse_relative_to;
 use crate::provider::TimeZoneProvider;
 use crate::{TemporalResult, TemporalUnwrap};
 
@@ -40,7 +40,7 @@ impl RelativeTo {
         source: &str,
         provider: &impl TimeZoneProvider,
     ) -> TemporalResult<Self> {
-        let result = parse_date_time(source)?;
+        let result = parse_relative_to(source)?;
 
         let Some(annotation) = result.tz else {
             let date_record = result.date.temporal_unwrap()?;
@@ -70,7 +70,7 @@ impl RelativeTo {
                 };
                 let hours_in_ns = i64::from(offset.hour) * 3_600_000_000_000_i64;
                 let minutes_in_ns = i64::from(offset.minute) * 60_000_000_000_i64;
-                let seconds_in_ns = i64::from(offset.minute) * 1_000_000_000_i64;
+                let seconds_in_ns = i64::from(offset.second) * 1_000_000_000_i64;
                 let ns = offset
                     .fraction
                     .and_then(|x| x.to_nanoseconds())
